@@ -666,7 +666,7 @@ impl World {
         // wait until the umount is parked in destroy() — or is over without having got there
         let t_park = std::time::Instant::now();
         let mut _parked = false;
-        while t_park.elapsed() < Duration::from_millis(300) {
+        while t_park.elapsed() < Duration::from_secs(60) {
             if erx.try_recv().is_ok() {
                 _parked = true;
                 break;
@@ -876,7 +876,7 @@ impl World {
             .map_err(|e| show_vfs_err(&e))
         });
         let t_park = std::time::Instant::now();
-        while t_park.elapsed() < Duration::from_millis(300) {
+        while t_park.elapsed() < Duration::from_secs(60) {
             if erx.try_recv().is_ok() || ta.is_finished() {
                 break;
             }
@@ -924,7 +924,7 @@ impl World {
         // wait until the umount is parked in destroy() — or is over without having got there
         let t_park = std::time::Instant::now();
         let mut _parked = false;
-        while t_park.elapsed() < Duration::from_millis(300) {
+        while t_park.elapsed() < Duration::from_secs(60) {
             if erx.try_recv().is_ok() {
                 _parked = true;
                 break;
